@@ -25,7 +25,7 @@
 
    State of this file: models the code WITH the fix fixes/C15-ech-hrr-keyshare.diff
    (HRR uTLS section copies hello.keyShares, not the stale hs.hello.keyShares);
-   the pre-fix behaviour is kept as [hrr_ext_source_prefix] for the regression lemma. *)
+   the pre-fix behaviour is kept as [hrr_update_prefix] for the regression lemma EchOuterP.hrr_prefix_refuted. *)
 From UV Require Import Base.Common.
 
 (* ------------------------------------------------------------------ *)
